@@ -47,16 +47,16 @@ mutual
     | .seq es, ko, ko', pd, pmk, pd', pmk', st => by
       simpa only [compile] using compileSeq_st_indep env env' es ko ko' pd pmk pd' pmk' st
     | .peekFor e, ko, ko', pd, pmk, pd', pmk', st => by
-      have h := compile_st_indep env env' e ko ko' pd pmk pd' pmk' ⟨st.label + 1, st.sw⟩
+      have h := compile_st_indep env env' e ko ko' false false false false ⟨st.label + 1, st.sw⟩
       simp only [compile]; exact h
     | .peekNot e, ko, ko', pd, pmk, pd', pmk', st => by
-      have h := compile_st_indep env env' e st.label st.label pd pmk pd' pmk' ⟨st.label + 1, st.sw⟩
+      have h := compile_st_indep env env' e st.label st.label false false false false ⟨st.label + 1, st.sw⟩
       simp only [compile]; exact h
     | .query e, ko, ko', pd, pmk, pd', pmk', st => by
       have h := compile_st_indep env env' e st.label st.label pd pmk pd' pmk' ⟨st.label + 2, st.sw⟩
       simp only [compile]; exact h
     | .star e, ko, ko', pd, pmk, pd', pmk', st => by
-      have h := compile_st_indep env env' e (st.label + 1) (st.label + 1) pd pmk pd' pmk'
+      have h := compile_st_indep env env' e (st.label + 1) (st.label + 1) false false false false
         ⟨st.label + 2, st.sw⟩
       simp only [compile]; exact h
     | .plus e, ko, ko', pd, pmk, pd', pmk', st => by
@@ -196,12 +196,12 @@ mutual
       simpa only [compile] using compileSeq_labels env es ko pd pmk st
     | .peekFor e, ko, pd, pmk, st => by
       intro l
-      have h := compile_labels env e ko pd pmk ⟨st.label + 1, st.sw⟩ l
+      have h := compile_labels env e ko false false ⟨st.label + 1, st.sw⟩ l
       lab_close
     | .peekNot e, ko, pd, pmk, st => by
       intro l
-      have h := compile_labels env e st.label pd pmk ⟨st.label + 1, st.sw⟩ l
-      have hm := compile_mono env e st.label pd pmk ⟨st.label + 1, st.sw⟩
+      have h := compile_labels env e st.label false false ⟨st.label + 1, st.sw⟩ l
+      have hm := compile_mono env e st.label false false ⟨st.label + 1, st.sw⟩
       have hl := labCnt_lbl env st.label l
       lab_close
     | .query e, ko, pd, pmk, st => by
@@ -213,8 +213,8 @@ mutual
       lab_close
     | .star e, ko, pd, pmk, st => by
       intro l
-      have h := compile_labels env e (st.label + 1) pd pmk ⟨st.label + 2, st.sw⟩ l
-      have hm := compile_mono env e (st.label + 1) pd pmk ⟨st.label + 2, st.sw⟩
+      have h := compile_labels env e (st.label + 1) false false ⟨st.label + 2, st.sw⟩ l
+      have hm := compile_mono env e (st.label + 1) false false ⟨st.label + 2, st.sw⟩
       have hl := labCnt_lbl env st.label l
       have hl' := labCnt_lbl env (st.label + 1) l
       lab_close
@@ -384,11 +384,11 @@ mutual
       simpa only [compile] using compileSeq_jumps_indep env env' ha es ko pd pmk st
         (by simpa only [Expr.noUalt] using h)
     | .peekFor e, ko, pd, pmk, st, h => by
-      have h1 := compile_jumps_indep env env' ha e ko pd pmk ⟨st.label + 1, st.sw⟩
+      have h1 := compile_jumps_indep env env' ha e ko false false ⟨st.label + 1, st.sw⟩
         (by simpa only [Expr.noUalt] using h)
       simp only [compile, jumps_append, h1]
     | .peekNot e, ko, pd, pmk, st, h => by
-      have h1 := compile_jumps_indep env env' ha e st.label pd pmk ⟨st.label + 1, st.sw⟩
+      have h1 := compile_jumps_indep env env' ha e st.label false false ⟨st.label + 1, st.sw⟩
         (by simpa only [Expr.noUalt] using h)
       simp only [compile, jumps_append, jumps_lbl, h1]
     | .query e, ko, pd, pmk, st, h => by
@@ -396,7 +396,7 @@ mutual
         (by simpa only [Expr.noUalt] using h)
       simp only [compile, jumps_append, jumps_lbl, h1]
     | .star e, ko, pd, pmk, st, h => by
-      have h1 := compile_jumps_indep env env' ha e (st.label + 1) pd pmk ⟨st.label + 2, st.sw⟩
+      have h1 := compile_jumps_indep env env' ha e (st.label + 1) false false ⟨st.label + 2, st.sw⟩
         (by simpa only [Expr.noUalt] using h)
       simp only [compile, jumps_append, jumps_lbl, h1]
     | .plus e, ko, pd, pmk, st, h => by
